@@ -363,7 +363,15 @@ def moved_fns(prop, cfg):
 def check(prop, tier, seed, replay=None):
     t0 = time.time()
     cfg = PROPS[prop]
-    rundir = os.path.join(CACHE, "run", "%s-%s" % (prop, tier))
+    # one run directory per process: concurrent checks of the same property must not share stage dirs;
+    # directories left by runs whose process is gone are removed first
+    rroot = os.path.join(CACHE, "run")
+    os.makedirs(rroot, exist_ok=True)
+    for d in os.listdir(rroot):
+        m = re.match(r"%s-%s-(\d+)$" % (prop, tier), d)
+        if m and not os.path.exists("/proc/%s" % m.group(1)):
+            shutil.rmtree(os.path.join(rroot, d), ignore_errors=True)
+    rundir = os.path.join(rroot, "%s-%s-%d" % (prop, tier, os.getpid()))
     os.makedirs(rundir, exist_ok=True)
     os.makedirs(os.path.join(VERIF, "evidence"), exist_ok=True)
     os.makedirs(os.path.join(VERIF, "replays"), exist_ok=True)
